@@ -293,7 +293,8 @@ func c17ExecDerived(sc c17Derived) (detail string) {
 	}
 	wantSecure := cfg.SecureConnection
 	if v, ok := sc.Meta["secureConnection"]; ok {
-		wantSecure = v == "true"
+		// the boolean spellings of a YAML / Go boolean (an unquoted YAML True arrives as the string "True")
+		wantSecure = map[string]bool{"1": true, "t": true, "T": true, "TRUE": true, "true": true, "True": true}[v]
 	}
 	wantTimeout := time.Minute
 	if v, ok := sc.Meta["connectionTimeout"]; ok {
@@ -404,14 +405,14 @@ func TestC17_Derived(t *testing.T) {
 	ints := rapid.Map(rapid.IntRange(1, 1<<20), func(n int) string { return fmt.Sprint(n) })
 	rapid.Check(t, func(rt *rapid.T) {
 		sc := c17Derived{}
-		sc.Main = sub(rt, "main", map[string]*rapid.Generator[string]{"hosts": rapid.SampledFrom([]string{"h1:8091", "h1,h2", "h3:11210"}), "username": str, "password": str, "bucket": str, "rootCAPath": str, "secure": rapid.Just("true")})
+		sc.Main = sub(rt, "main", map[string]*rapid.Generator[string]{"hosts": rapid.SampledFrom([]string{"h1:8091", "h1,h2", "h3:11210"}), "username": str, "password": str, "bucket": str, "rootCAPath": str, "secure": rapid.SampledFrom([]string{"true", "true", "false"})})
 		if sc.Main == nil {
 			sc.Main = map[string]string{}
 		}
 		sc.Meta = sub(rt, "meta", map[string]*rapid.Generator[string]{
 			"hosts": rapid.SampledFrom([]string{"m1", "m1,m2,m3"}), "username": str, "password": str, "bucket": str, "scope": str, "collection": str,
 			"maxQueueSize": ints, "connectionBufferSize": rapid.OneOf(ints, rapid.SampledFrom([]string{"1mb", "10 MB", "0,5gb", "512kb"})),
-			"connectionTimeout": durs, "secureConnection": rapid.SampledFrom([]string{"true", "false"}), "rootCAPath": str,
+			"connectionTimeout": durs, "secureConnection": rapid.SampledFrom([]string{"true", "false", "True", "False", "TRUE", "FALSE", "1", "0", "t", "f", "T", "F"}), "rootCAPath": str,
 		})
 		sc.Member = sub(rt, "member", map[string]*rapid.Generator[string]{"expirySeconds": ints, "heartbeatInterval": durs, "heartbeatToleranceDuration": durs, "monitorInterval": durs, "timeout": durs})
 		sc.Leader = sub(rt, "leader", map[string]*rapid.Generator[string]{"leaseLockName": str, "leaseLockNamespace": str, "leaseDuration": durs, "renewDeadline": durs, "retryPeriod": durs})
